@@ -9,6 +9,11 @@ _TIE = ("The model is tied to /repo on every run: the same step functions (compi
         "the property's monitor is evaluated on the implementation's traces.")
 
 CLAIMS = {
+    "C16": {
+        "text": "The property's domain is a finite table - (public T-parametric type, Send / Sync / covariance / outlives question, kind of T among Send+Sync, Send only, Sync only, neither). rustc's verdict for every row is regenerated from /repo's working tree on every run (one table binary + 90 probe programs, each negative probe with a compiling control) into lean/ALock/Generated/Markers.lean. Lean theorems over the whole table: if rustc accepts X<T>: Send (Sync) for a kind of T, then nothing reachable by owning (sharing) an X<T> - through guard conversions, future outputs, source(), the Arc it holds - needs T: Send or T: Sync unless T has it (C16_markers; Sound is reachability in the capability graph of the public API, decided by a closed-set check the kernel evaluates); write/upgradable guards and the write/upgrade futures need both (C16_write_needs_both, from the model); source() is callable on a Sync guard only for T: Send (C16_source); covariant types never lead to &mut T (C16_variance); no borrowed guard or future outlives its lock (C16_lifetimes); marker bounds mention only Send/Sync so four kinds are a complete case split (C16_complete).",
+        "note": "The capability table is hand-written from the public API (API inventory of /repo compared on every run); rustc's trait solver and borrow checker are trusted. Found and fixed with it: MutexGuard::source on a Sync-only T (fix: 3a49498); RwLockWriteGuard Send for T: !Sync (fix: a67ffdf).",
+        "technique": "Lean 4 theorems (reachability in a capability graph; decide over the complete finite table) about a table regenerated from rustc's verdicts on /repo on every run",
+    },
     "C01": {
         "text": "Exclusion (at most one guard; the state word equals guards + 2*starved operations; a guard is only handed out when none is alive) is a Lean theorem over every finite history of the poll-granular Mutex model: every mix of lock/lock_arc/try_lock/try_lock_arc, cancellation at any point, the 0.5 ms branch taken or not at every evaluation point. " + _TIE + " Compared fields: outcome and state word.",
         "note": "PARTIAL: atomic calls (poll-granular); interleavings of atomic operations and the release-happens-before-acquire clause are not yet covered by a theorem. event-listener is modelled, not verified.",
